@@ -124,6 +124,7 @@ var mutantCatalogue = map[string][]mutant{
 		{Name: "nop costs zero cycles", File: "risc/risc.go", Old: "\tcase Nop:\n\t\treturn 1", New: "\tcase Nop:\n\t\treturn 0"},
 	},
 	"C09": {
+		{Name: "ret not held behind an unresolved branch", File: "proc/mvp7-1/cu.go", Old: "risc.Ret && (!u.outBus.IsEmpty() || u.pendingConditionalBranch)", New: "risc.Ret && (!u.outBus.IsEmpty() && u.pendingConditionalBranch)"},
 		{Name: "flush keeps the fetch unit complete", File: "proc/mvp6-2/fu.go", Old: "\tu.complete = false\n", New: ""},
 		{Name: "final drain ignores a busy write unit", File: "proc/mvp8-0/cpu.go", Old: "\t\t\tif !wu.isEmpty() || !m.writeBus.IsEmpty() {\n\t\t\t\tempty = false\n\t\t\t}\n", New: "\t\t\tif !wu.isEmpty() || !m.writeBus.IsEmpty() {\n\t\t\t}\n"},
 		{Name: "undispatched instruction dropped", File: "proc/mvp7-0/cu.go", Old: "\t\t\tu.pendings.Push(runner)\n", New: ""},
@@ -135,6 +136,7 @@ var mutantCatalogue = map[string][]mutant{
 		{Name: "queue dispatch forgets the branch flag", File: "proc/mvp7-1/cu.go", Old: "\t\t\tif runner.Runner.InstructionType().IsConditionalBranch() {\n\t\t\t\tu.pendingConditionalBranch = true\n\t\t\t}\n\t\t} else {\n\t\t\tu.skippedInCurrentCycle = append(u.skippedInCurrentCycle, runner)", New: "\t\t} else {\n\t\t\tu.skippedInCurrentCycle = append(u.skippedInCurrentCycle, runner)"},
 	},
 	"C03": {
+		{Name: "second branch of a cycle not held", File: "proc/mvp6-2/cu.go", Old: "IsBranch() && u.pushedBranchInCurrentCycle {", New: "IsBranch() && !u.pushedBranchInCurrentCycle {"},
 		{Name: "decode goes on behind a jump in the same step", File: "proc/mvp7-0/du.go", Old: "\t\t\tjump = true\n", New: ""},
 		{Name: "flush keeps the pending queue", File: "proc/mvp7-0/cu.go", Old: "func (u *controlUnit) flush() {\n\tu.pendings = comp.NewQueue[risc.InstructionRunnerPc](pendingLength)\n", New: "func (u *controlUnit) flush() {\n"},
 		{Name: "flush drain ends while a unit is busy", File: "proc/mvp6-2/cpu.go", Old: "\t\t\t\t\t\tisEmpty = false\n", New: ""},
@@ -155,6 +157,8 @@ var mutantCatalogue = map[string][]mutant{
 		{Name: "decode does not stall after a jump", File: "proc/mvp6-0/du.go", Old: "\t\t\tu.pendingBranchResolution = true\n", New: ""},
 	},
 	"C04": {
+		{Name: "dispatch when there ARE hazards", File: "proc/mvp7-0/cu.go", Old: "\tif len(hazards) == 0 {\n\t\tpushed := u.pushRunner", New: "\tif len(hazards) != 0 {\n\t\tpushed := u.pushRunner"},
+		{Name: "held-back dependence test inverted", File: "proc/mvp8-0/cu.go", Old: "\tif u.isDataHazardWithSkippedRunners(runner) {", New: "\tif !u.isDataHazardWithSkippedRunners(runner) {"},
 		{Name: "received forward value dropped", File: "proc/mvp7-0/eu.go", Old: "\t\t\tvalue = v\n", New: "\t\t\t_ = v\n"},
 		{Name: "held-back instruction not recorded", File: "proc/mvp7-1/cu.go", Old: "\t\t\tu.pendings.Push(runner)\n\t\t\tu.skippedInCurrentCycle = append(u.skippedInCurrentCycle, runner)\n", New: "\t\t\tu.pendings.Push(runner)\n"},
 		{Name: "dispatch window never re-created", File: "proc/mvp6-3/cu.go", Old: "func (u *controlUnit) cycle(cycle int) {\n\tu.pushedRunnersInCurrentCycle = make(map[*risc.InstructionRunnerPc]bool)\n", New: "func (u *controlUnit) cycle(cycle int) {\n"},
@@ -226,6 +230,7 @@ var mutantCatalogue = map[string][]mutant{
 		{Name: "always flush on a taken branch", File: "proc/mvp5/bu.go", Old: "return bu.expectation != pc", New: "return true"},
 	},
 	"C01": {
+		{Name: "forwarding stop dropped", File: "proc/mvp6-3/cu.go", Old: "\t\tu.forwarding++\n\t\treturn true, true\n", New: "\t\tu.forwarding++\n\t\treturn true, false\n"},
 		{Name: "dispatched instruction stays queued", File: "proc/mvp6-3/cu.go", Old: "\t\t\tu.pendings.Remove(elem)\n", New: ""},
 		{Name: "side jobs dropped instead of kept", File: "common/coroutine/coroutine.go", Old: "\t\treturn f(a)\n\t})\n\tif length == 0 {", New: "\t\treturn !f(a)\n\t})\n\tif length == 0 {"},
 		{Name: "epilogue forgets RATFlush", File: "proc/mvp6-3/cpu.go", Old: "\tm.ctx.RATCommit()\n\tm.ctx.RATFlush()\n", New: "\tm.ctx.RATCommit()\n"},
